@@ -502,24 +502,7 @@ theorem inv_rename (s : Store) (o n : Bytes) (now : Nat) (hi : Inv s) : Inv (s.r
           · have h1 := inv_newBoxes s (ancestors (GoStr.trimQuotes n)) now hi
             split
             · rename_i hnd
-              -- the two renaming passes are one map that only changes names
-              let o' := GoStr.trimQuotes o
-              let n' := GoStr.trimQuotes n
-              let f : Mbox → Bytes := fun b =>
-                let nm := if b.name = o' then n' else b.name
-                if isChildOf o' nm then n' ++ nm.drop o'.length else nm
-              have heq : ((s.newBoxes (ancestors n') now).boxes.map (fun b => if b.name = o' then { b with name := n' } else b)).map
-                    (fun b => if isChildOf o' b.name then { b with name := n' ++ b.name.drop o'.length } else b)
-                  = (s.newBoxes (ancestors n') now).boxes.map (fun b => { b with name := f b }) := by
-                rw [List.map_map]; apply List.map_congr_left; intro b _
-                simp only [Function.comp, f]
-                by_cases h1 : b.name = o' <;> simp only [h1, if_true, if_false] <;>
-                  split <;> rfl
-              have hnd' : (((s.newBoxes (ancestors n') now).boxes.map (fun b => { b with name := f b })).map (·.name)).Nodup := by
-                rw [← heq]; simpa [namesNodup] using hnd
-              have := inv_renameBoxes (s.newBoxes (ancestors n') now) f h1 hnd'
-              rw [← heq] at this
-              exact this
+              exact inv_renameBoxes _ _ h1 (by simpa [namesNodup] using hnd)
             · exact h1
 
 theorem inv_subscribe (s : Store) (a : Bytes) (hi : Inv s) : Inv (s.subscribe a).1 := by
